@@ -924,6 +924,12 @@ pub fn main(args: &[String]) -> i32 {
                 pool::PAUSE_KILLERS.store(true, Ordering::SeqCst);
                 killer_pauses += 1;
             }
+            if crate::now_ms() - tw > 5_000 {
+                if let Some(m) = director::delivery_stuck(&[]) {
+                    emit_violation("C03", "dispatch-spins", &format!("{} (mode={} phase={} seed={})", m, if owner_mode { "owner" } else { "stress" }, phase, seed));
+                    unsafe { libc::_exit(1) };
+                }
+            }
             if crate::now_ms() - tw > 60_000 {
                 emit(&J::obj().set("type", J::s("inconclusive")).set("reason", J::s("mutators did not finish within 60 s")));
                 std::process::exit(2);
@@ -948,6 +954,21 @@ pub fn main(args: &[String]) -> i32 {
         }
         stop_v.store(true, Ordering::SeqCst);
         unsafe { libc::write(pipefd[1], b"x".as_ptr() as *const _, 1) };
+        let tj = crate::now_ms();
+        while !vjoins.iter().all(|j| j.is_finished()) {
+            std::thread::sleep(std::time::Duration::from_millis(2));
+            if crate::now_ms() - tj > 3_000 {
+                // a victim does not come back: is it stuck inside a delivery?
+                if let Some(m) = director::delivery_stuck(&[]) {
+                    emit_violation("C03", "dispatch-spins", &format!("{} (mode={} phase={} seed={})", m, if owner_mode { "owner" } else { "stress" }, phase, seed));
+                    unsafe { libc::_exit(1) };
+                }
+                if crate::now_ms() - tj > 60_000 {
+                    emit(&J::obj().set("type", J::s("inconclusive")).set("reason", J::s("victim threads did not finish and are not inside a delivery")));
+                    unsafe { libc::_exit(2) };
+                }
+            }
+        }
         for j in vjoins {
             if let Some(r) = j.join().unwrap() {
                 read_victim_results.push(r);
